@@ -653,6 +653,24 @@ func run(tapeJSON json.RawMessage, res *core.Result) {
 		res.Evals = 1
 	}
 	res.Nontrivial = len(reqs) > 2
+	for _, op := range tp.Ops {
+		switch op.Op {
+		case "sleep":
+			res.Faults["clock-advanced"]++
+		case "sleep_to":
+			res.Faults["clock-placed-at-"+op.Ref]++
+		case "destroy":
+			res.Faults["destroy"]++
+		}
+	}
+	for k, v := range res.Stats {
+		if strings.HasPrefix(k, "kdc_refused_") {
+			res.Faults["kdc-refusal-"+strings.TrimPrefix(k, "kdc_refused_")] += int(v)
+		}
+	}
+	if tp.Chain > 0 {
+		res.Faults["referral"]++
+	}
 	res.Class = confClass + "|" + strings.Join(seq, ",")
 	if len(res.Class) > 400 {
 		res.Class = res.Class[:400] + core.HashStrings(seq)
